@@ -265,7 +265,10 @@ func (r *router) AttachClient(client wamp.Peer, transportDetails wamp.Dict) erro
 	// only.
 	sessDetails := make(wamp.Dict, len(hello.Details)+len(welcome.Details))
 	for k, v := range hello.Details {
-		if k == "authmethods" || k == "roles" {
+		// The identity of the session never comes from the client, also when
+		// the authenticator leaves one of these out of its WELCOME details.
+		if k == "authmethods" || k == "roles" || k == "session" || k == "authid" ||
+			k == "authrole" || k == "authmethod" || k == "authprovider" {
 			continue
 		}
 		sessDetails[k] = v
